@@ -56,13 +56,14 @@ Definition model_out (c : nat * (list Z * list Z)) : option (list Z) :=
       (* code -1: an error that is not a gRPC status (status.Convert gives Unknown) *)
       Some (verdict_obs (process_error (Some (if code =? (-1) then codes_Unknown else code, ri_of rik nanos))))
   | 4%nat, [code; isnil] => Some [b2z (shouldRetry code (negb (isnil =? 0)))]
-  | 5%nat, [st] => Some [b2z (isRetryableStatusCode st)]
+  | 5%nat, sts => Some (map (fun st => b2z (isRetryableStatusCode st)) sts)   (* a batch of statuses *)
   | 6%nat, [st; rak; rav; bodyk] =>
       let h := if rak =? 0 then RANone else if rak =? 1 then RASecs rav
                else if rak =? 2 then RADateMin rav else RAOther in
       let body_ok := negb (bodyk =? 2) in
       Some (verdict_obs (http_export st h body_ok)
-            ++ [if body_ok then opt_code (http_export_err_code st) else -2])
+            ++ [if (200 <=? st) && (st <=? 299) then (if body_ok then -1 else -2)
+                else opt_code (http_export_err_code st)])
   | 7%nat, [a; e; post; ct; body; okind; code; rik; nanos; w] =>
       option_map (fun o =>
         let '(called, r) := recv_http (mkReq (auth_of a) (enc_of e) (negb (post =? 0)) (ct_of_z ct) (body_of body)) o in
@@ -75,9 +76,10 @@ Definition model_out (c : nat * (list Z * list Z)) : option (list Z) :=
       option_map (fun o =>
         let h := hop (transport_of t) (auth_of a) (Z.to_N items) o in
         [b2z (h_called h)] ++ verdict_obs (h_verdict h) ++ [opt_code (h_err_code h); b2z (h_called h);
-           (* 2: the sink differs from the sent payload exactly by a field the JSON decoder is known
-              to drop (findings C15-JSON-EVENTNAME / C15-JSON-ZEROTHRESHOLD; codec = property C08) *)
-           if h_called h then (if (t =? 2) && negb (lossy =? 0) then 2 else 1) else 1])
+           (* sink bytes = sent bytes on every transport; the input flag [lossy] only records that the payload
+              sets LogRecord.event_name / ExponentialHistogramDataPoint.zero_threshold (regression inputs for the
+              JSON decoder cases repaired by /repo 3d5efdb0d) *)
+           1])
         (outcome_of okind code rik nanos w)
   | 9%nat, [a; body; okind; code; rik; nanos; w] =>
       option_map (fun o =>
